@@ -538,3 +538,19 @@ def SBH(lw, lh, cw, ch, d, dh, L, luma):
 @specfun
 def SBW(lw, lh, cw, ch, d, dh, L, luma):
     return subband_width(mkstate(lw, lh, cw, ch, d, dh, 1, 1), L, comp(luma))
+
+
+@lemma
+def padded_dims_cover_picture(lw: int, lh: int, cw: int, ch: int, d: int, dh: int, luma: bool):
+    """The padded picture size (subband dimensions one level above the top level, which is what dwt_pad_addition pads to and
+    what the inverse transform returns) is at least the picture size: padding removal only ever deletes."""
+    requires(lw >= 0 and lh >= 0 and cw >= 0 and ch >= 0 and d >= 0 and dh >= 0)
+    ensures(SBW(lw, lh, cw, ch, d, dh, d + dh + 1, 1 if luma else 0) >= (lw if luma else cw))
+    ensures(SBH(lw, lh, cw, ch, d, dh, d + dh + 1, 1 if luma else 0) >= (lh if luma else ch))
+    unfold(SBW, lw, lh, cw, ch, d, dh, d + dh + 1, 1 if luma else 0)
+    unfold(SBH, lw, lh, cw, ch, d, dh, d + dh + 1, 1 if luma else 0)
+    w = lw if luma else cw
+    h = lh if luma else ch
+    use("div_def", w + pow2(dh + d) - 1, pow2(dh + d))
+    use("div_def", h + pow2(d) - 1, pow2(d))
+    use("pow2_small", 0)
